@@ -310,7 +310,7 @@ class Gen:
                     return sc[0]
             except (IndexError, KeyError, ValueError):
                 pass
-        if w.get("set_value", 0) and w.get("set_formula", 0) and rng.random() < 0.04:
+        if w.get("set_value", 0) and w.get("set_formula", 0) and rng.random() < 0.06:
             # scenario: an element is assigned, its cells gets another formula (which discards the
             # assignment), the element is computed, and then a reference the formula reads changes
             try:
@@ -382,10 +382,13 @@ class Gen:
         cells = self.cached_cells()
         p, c = self.pick_cells(cells)
         args = self.rand_args(c, False)
-        f = self.formula(p, c)
-        reads = [op[1][0] for op in self.flib[f]["ops"] if op[0] == "read" and len(op[1]) == 1]
-        own = [n for n in reads if n in self.mir["refs"][tp(p)] and self.mir["refs"][tp(p)][n]["v"][0] == "int"]
-        glob = [n for n in reads if n in self.mir["grefs"] and n not in self.mir["refs"][tp(p)]]
+        for _ in range(4):      # (a formula that reads a reference by name)
+            f = self.formula(p, c)
+            reads = [op[1][0] for op in self.flib[f]["ops"] if op[0] == "read" and len(op[1]) == 1]
+            own = [n for n in reads if n in self.mir["refs"][tp(p)] and self.mir["refs"][tp(p)][n]["v"][0] == "int"]
+            glob = [n for n in reads if n in self.mir["grefs"] and n not in self.mir["refs"][tp(p)]]
+            if own or glob:
+                break
         if own:
             n = rng.choice(own)
             edit = {"op": "set_ref", "s": list(p), "n": n, "v": ["int", rng.choice(INT_VALUES), [], ""],
